@@ -500,16 +500,20 @@ struct Child {
 			for (int p = 1; p < len && !bad(); ++p) lookup_name(e.name.c_str(), p, model_find(e.name.substr(0, p)), "prefix-length", cls);
 			// mpt_alias_typeid: "name", "name: sym", "name \t: sym"
 			if (bad()) break;
-			const char *forms[] = { "%s", "%s: sym", "%s \t:  sym", "%s:" };
-			for (int fi = 0; fi < 4 && !bad(); ++fi) {
+			// the name ends at the FIRST ':'; the symbol part may itself contain ':' (C++ scope, "lib.so:init") or be a lone ':'
+			const char *forms[] = { "%s", "%s: sym", "%s \t:  sym", "%s:", "%s: ns::sym", "%s :lib.so:init", "%s::", "%s: sym:" };
+			const char *wantends[] = { "", "sym", "sym", "", "ns::sym", "lib.so:init", ":", "sym:" };
+			for (int fi = 0; fi < 8 && !bad(); ++fi) {
 				std::string d = fmt(forms[fi], e.name.c_str());
 				const char *end = 0;
 				int got = mpt::mpt_alias_typeid(d.c_str(), &end);
 				int got2 = mpt::mpt_alias_typeid(d.c_str(), 0);
 				count("lookups_by_alias_typeid", 2);
-				const char *wantend = fi == 1 || fi == 2 ? "sym" : "";
-				if (got != (int) want || got2 != (int) want) fail("mpt_alias_typeid|" + cls + "|" + (fi ? "name:symbol" : "name") + "|wrong-id", fmt("mpt_alias_typeid(\"%s\") returns %d / %d, name is registered as id 0x%lx", d.c_str(), got, got2, (long) want));
-				else if (!end || strcmp(end, wantend)) fail("mpt_alias_typeid|" + cls + "|" + (fi ? "name:symbol" : "name") + "|wrong-end", fmt("mpt_alias_typeid(\"%s\") leaves the symbol at \"%s\"", d.c_str(), end ? end : "NULL"));
+				const char *wantend = wantends[fi];
+				const char *argcls = !fi ? "name" : fi >= 4 ? "name:symbol-with-colon" : "name:symbol";
+				if (fi >= 4) count("alias_typeid_symbol_contains_colon");
+				if (got != (int) want || got2 != (int) want) fail("mpt_alias_typeid|" + cls + "|" + argcls + "|wrong-id", fmt("mpt_alias_typeid(\"%s\") returns %d / %d, name is registered as id 0x%lx", d.c_str(), got, got2, (long) want));
+				else if (!end || strcmp(end, wantend)) fail("mpt_alias_typeid|" + cls + "|" + argcls + "|wrong-end", fmt("mpt_alias_typeid(\"%s\") leaves the symbol at \"%s\"", d.c_str(), end ? end : "NULL"));
 			}
 		}
 		if (!bad()) {
@@ -536,6 +540,31 @@ struct Child {
 	}
 	void sweep_helpers()
 	{
+		// 3a. scalar <-> vector id mapping (types.h macros, used by span<T> type ids and value conversion) for EVERY id of
+		// the sweep: only a built-in scalar id has a vector id, it lies in the vector range and maps back; in particular no
+		// registered id (whatever its low byte) may be mapped onto the id of a built-in vector type
+		for (uintptr_t id = 0; id <= SWEEP_TOP && !bad(); ++id) {
+			int v = (int) id;
+			bool scalar = id >= mpt::_TypeScalarBase && id <= mpt::_TypeScalarMax;
+			bool vector = id >= mpt::_TypeVectorBase && id < mpt::_TypeVectorMax;
+			using namespace mpt;   // the macros name the enumerators unqualified
+			int tv = MPT_type_toVector(v), ts = MPT_type_toScalar(v);
+			int wantv = scalar ? (int) (id - mpt::_TypeScalarBase + mpt::_TypeVectorBase) : 0;
+			int wants = vector ? (int) (id - mpt::_TypeVectorBase + mpt::_TypeScalarBase) : 0;
+			count("id_mapping_scalar_vector", 2);
+			auto f = tab.find(id);
+			bool reg = f != tab.end() && f->second.kind != KBuiltin && !(f->second.kind == KIface && id < IF_ADD) && id != MT_BASE;
+			if (reg && (id & 0xff) >= mpt::_TypeScalarBase && (id & 0xff) <= mpt::_TypeScalarMax) count("id_mapping_registered_id_with_scalar_low_byte");
+			if (reg && (id & 0xff) >= mpt::_TypeVectorBase && (id & 0xff) < mpt::_TypeVectorMax) count("id_mapping_registered_id_with_vector_low_byte");
+			if (tv != wantv) {
+				fail(std::string("MPT_type_toVector|") + (reg ? f->second.cls : (rangecls(id) + "-range").c_str()) + "|id|" + (tv && tab.count(tv) ? "not-unique" : "wrong-id"),
+				     fmt("MPT_type_toVector(0x%lx) = 0x%x, want 0x%x%s", (long) id, tv, wantv, tv && tab.count(tv) ? ": the id of a built-in vector type is handed out for a type that is not its scalar" : ""));
+			}
+			else if (ts != wants) {
+				fail(std::string("MPT_type_toScalar|") + (reg ? f->second.cls : (rangecls(id) + "-range").c_str()) + "|id|" + (ts && tab.count(ts) ? "not-unique" : "wrong-id"),
+				     fmt("MPT_type_toScalar(0x%lx) = 0x%x, want 0x%x", (long) id, ts, wants));
+			}
+		}
 		// 3. stateless id helpers: integer ids by size, message format codes
 		for (size_t n = 0; n <= 17 && !bad(); ++n) {
 			for (int u = 0; u < 2; ++u) {
@@ -736,7 +765,8 @@ static const char *required_keys[] = {
 	"accepted:generic,first-of-chunk", "accepted:metatype,first-of-chunk",
 	"refused:interface,short-name", "refused:metatype,short-name", "refused:interface,dup-name", "refused:metatype,dup-name",
 	"refused:interface,name-of-other-kind", "refused:metatype,name-of-other-kind", "refused:interface,builtin-short-name", "refused:metatype,builtin-short-name",
-	"refused:generic,invalid-traits", "lookups_by_id", "lookups_by_name", "lookups_by_alias_typeid", "format_code_roundtrips", "nontrivial" };
+	"refused:generic,invalid-traits", "lookups_by_id", "lookups_by_name", "lookups_by_alias_typeid", "alias_typeid_symbol_contains_colon", "id_mapping_scalar_vector",
+	"id_mapping_registered_id_with_scalar_low_byte", "id_mapping_registered_id_with_vector_low_byte", "format_code_roundtrips", "nontrivial" };
 
 // Run all histories of one BFS level, each in its own forked child, up to P children at a time.
 // Results are collected per task index, so the bookkeeping that follows is independent of timing.
